@@ -242,6 +242,8 @@ def run(tier, replay=None):
     if replay:
         print(json.dumps(common.load_replay(replay)["case"], indent=1)[:6000])
         return 0
+    # the wrapped-coordinate rule for ALL bounds and coordinates with an excursion below one box length (Apalache)
+    common.apalache_lemmas(chk, "BinLemma", ["WrapInside", "WrapByOneBox", "WrapFixesInside"], ["WrapTwoBoxes"])
     samp = 9 if tier == "quick" else 1
     g = run_tlc_sharded("MC_LammpsDump", dict(constants={"Tier": tier, "Gen": True, "SAMPLE": samp, "SALT": common.SEED % samp,
                                                         "S": 100, "SD": 4},
